@@ -564,7 +564,7 @@ def run(ctx):
     ctx.extra["oracle_checked_sequential"] = len(lines)
     tm["sequential_s"] = round(time.time() - t0, 1)
     t0 = time.time()
-    clines = gen_conc(ctx, 1500 if thorough else 150)
+    clines = gen_conc(ctx, 1200 if thorough else 100)
     nfail_c, obs = run_conc(ctx, drv, impl, clines, "real threads vs model", repeat=3 if thorough else 2)
     ctx.extra["oracle_checked_concurrent_runs"] = len(obs)
     tm["concurrent_s"] = round(time.time() - t0, 1)
